@@ -485,7 +485,7 @@ func GenNonFinite(r *h.Rand) float64 {
 var strLens = []int{0, 0, 1, 2, 3, 5, 7, 8, 15, 16, 17, 31, 32, 33, 63, 64, 65}
 var bigStrLens = []int{127, 128, 129, 255, 256, 1000, 4095, 4096, 4097}
 
-var escAlphabet = []string{"\"", "\\", "/", "\b", "\f", "\n", "\r", "\t", "\x00", "\x01", "\x1f", "\x7f", " ", "a", "Z", "0",
+var escAlphabet = []string{"\"", "\\", "/", "\b", "\f", "\n", "\r", "\t", "\x00", "\x01", "\x1f", "\x7f", " ", "a", "Z", "0", "\v", "\x0e", "\x1b", "\x10",
 	"\u00e9", "\u00df", "\u20ac", "\u4e2d", "\u2028", "\u2029", "\U0001f600", "\U0001d11e", "\ufffd", "<", ">", "&", "'", "\u00a0", "\uffff", "\U0010ffff"}
 
 func GenStr(r *h.Rand, cfg ValCfg) []byte {
